@@ -61,6 +61,7 @@ def generate(c: Contract) -> Generated:
         g.gen_time = time.time() - t0
         return g
     ex = Exec(c, fs.fdef, fs.path, ctypes=fs.ctypes if c.cython else None)
+    ex.aliases = getattr(fs, "aliases", {})
     g.ex = ex
     try:
         st = initial_state(ex, c, fs)
